@@ -66,6 +66,19 @@ Fixpoint ap_only (s : sel) : bool :=
   | Sel (Some (k, r)) _ => match k with Ancestor | Parent => ap_only r | _ => false end
   end.
 
+(* a child combinator / a sibling combinator somewhere in the chain *)
+Fixpoint has_kind (test : relkind -> bool) (s : sel) : bool :=
+  match s with
+  | Sel None _ => false
+  | Sel (Some (k, r)) _ => test k || has_kind test r
+  end.
+Definition is_parent_kind (k : relkind) : bool := match k with Parent => true | _ => false end.
+Definition is_sibling_kind (k : relkind) : bool := match k with Sibling | Adjacent => true | _ => false end.
+(* the one situation where rsass's is-superselector is an incomplete test: a child combinator meets a sibling
+   combinator (`a > c` is a superselector of `a > b + c`, but the test wants the `>` link to be direct) *)
+Definition child_meets_sibling (a b : sels) : bool :=
+  existsb (has_kind is_parent_kind) (a ++ b) && existsb (has_kind is_sibling_kind) (a ++ b).
+
 Definition fmt_opt (o : option sels) : option text :=
   match o with Some s => Some (fmt_sels false s) | None => None end.
 
@@ -107,11 +120,12 @@ Definition clause (c : case) : bool :=
       match c_t1 c with
       | None => negb (N.eqb (c_st1 c) 2)
       | Some _ =>
-          (* judged where the implementation's is-superselector is a complete test: operands whose combinators are
-             descendant / child only and that carry no pseudo-element (with sibling combinators it misses e.g.
-             `a > c` >= `a > b + c`; `.c` is rightly no superselector of `.c::after`) *)
+          (* judged where the implementation's is-superselector is a complete test: no pseudo-element in an operand
+             (`.c` is rightly no superselector of `.c::after`) and not a child combinator together with a sibling
+             combinator (calibrated on the clean tree: 0 failures in 6675 results with descendant + sibling
+             combinators, 0 in 3903 with descendant + child combinators; 320 of 2884 when `>` meets `+` / `~`) *)
           existsb has_pe (c_a c) || existsb has_pe (c_b c)
-          || negb (forallb ap_only (c_a c)) || negb (forallb ap_only (c_b c))
+          || child_meets_sibling (c_a c) (c_b c)
           || (N.eqb (c_f1 c) 1 && N.eqb (c_f2 c) 1)
       end
   | 3%N =>
